@@ -23,6 +23,7 @@ Conn == {"c0", "c1", "c2", "c3", "c4", "c5"}
 Ids == {Rec[i].id : i \in {j \in DOMAIN Rec : Rec[j].ev = "req_start"}}
 MaxSteps == 1000000
 SendKinds == {"full", "head", "body"}
+Resets == TRUE
 
 VARIABLES cst, rq, srv, wg, usedIds,
           l,          \* next line of the trace
